@@ -55,7 +55,7 @@ def settle (cfg : Cfg) : Nat → LSt → LSt
 def connOf (s : St) (w : Want) : Option Conn :=
   match s.wst w with
   | .gotConn c => some c
-  | .using c => some c
+  | .inUse c => some c
   | _ => none
 
 def showPut : PutErr → String
@@ -109,7 +109,7 @@ def mstep (cfg : Cfg) (l : LSt) : MOp → LSt × String
       ({ l with s := s1 }, "-")
   | .finishPut w =>
     match l.s.wst w with
-    | .using c =>
+    | .inUse c =>
       let r := step cfg l.s (.finishPut w)
       match r.2 with
       | .put e =>
@@ -120,7 +120,7 @@ def mstep (cfg : Cfg) (l : LSt) : MOp → LSt × String
     | _ => (l, "ign")
   | .finishClose w =>
     match l.s.wst w with
-    | .using c =>
+    | .inUse c =>
       let s1 := st1 cfg l.s (.finishClose w)
       ({ l with s := st1 cfg s1 (.removeIdle c) }, "-")
     | _ => (l, "ign")
